@@ -306,6 +306,21 @@ func cpuParse(text []byte, reps int) (time.Duration, string, []string) {
 	return best, obs, fails
 }
 
+// confirmDisproportion re-measures a suspicious pair three more times (best of seven runs each, a pause in between)
+// and confirms the suspicion only if every measurement shows it
+func confirmDisproportion(small, large []byte) (time.Duration, time.Duration, bool) {
+	var a, b time.Duration
+	for attempt := 0; attempt < 3; attempt++ {
+		time.Sleep(2 * time.Second)
+		a, _, _ = cpuParse(small, 7)
+		b, _, _ = cpuParse(large, 7)
+		if !(a > 5*time.Millisecond && b > 40*a) {
+			return a, b, false
+		}
+	}
+	return a, b, true
+}
+
 func suiteParseBig(o *Out, thorough bool, seed int64) {
 	sizes := []int{8 << 10, 64 << 10}
 	for _, s := range shapes {
@@ -332,9 +347,14 @@ func suiteParseBig(o *Out, thorough bool, seed int64) {
 		if t64 > 5*time.Second {
 			o.Fail(line, fmt.Sprintf("64 KiB of %q took %v", s.unit, t64))
 		}
-		// 8x the input should take about 8x the time; allow 40x, and only judge when the base is measurable
+		// 8x the input should take about 8x the time; allow 40x, and only judge when the base is measurable.  A ratio
+		// measured on a loaded machine is noise (the larger run meets more of the load): it is reported only when it
+		// persists through three further measurements, each the best of seven runs
 		if t8 > 5*time.Millisecond && t64 > 40*t8 {
-			o.Fail(line, fmt.Sprintf("time not roughly proportional: 8 KiB %v, 64 KiB %v", t8, t64))
+			mk := func(n int) []byte { return []byte(strings.Repeat(s.unit, n/len(s.unit))) }
+			if a, b, still := confirmDisproportion(mk(8<<10), mk(64<<10)); still {
+				o.Fail(line, fmt.Sprintf("time not roughly proportional: 8 KiB %v, 64 KiB %v (first measurement %v, %v)", a, b, t8, t64))
+			}
 		}
 		o.Notes = append(o.Notes, fmt.Sprintf("%s: 8KiB %v 64KiB %v", s.name, t8, t64))
 	}
@@ -362,7 +382,12 @@ func suiteParseBig(o *Out, thorough bool, seed int64) {
 			o.Fail(line, fmt.Sprintf("a single %s token of 64 KiB took %v", g.name, t64))
 		}
 		if t8 > 5*time.Millisecond && t64 > 40*t8 {
-			o.Fail(line, fmt.Sprintf("time not roughly proportional: 8 KiB %v, 64 KiB %v", t8, t64))
+			mk := func(n int) []byte {
+				return []byte(g.open + strings.Repeat(g.unit, (n-len(g.open)-len(g.close))/len(g.unit)) + g.close)
+			}
+			if a, b, still := confirmDisproportion(mk(8<<10), mk(64<<10)); still {
+				o.Fail(line, fmt.Sprintf("time not roughly proportional: 8 KiB %v, 64 KiB %v (first measurement %v, %v)", a, b, t8, t64))
+			}
 		}
 	}
 	// random and mutated byte strings (no model comparison at this size)
